@@ -167,8 +167,9 @@ Waitpid(nohang, ret, st) ==
   /\ UNCHANGED <<truth, exitT, now, det, known, op, opD, opN, t0, knownAtCall, nkill, killOk, eintr>>
 
 \* waitpid was interrupted by a signal handler (EINTR): nothing happened to the child, nothing was learnt about it
+\* (it does not count as a status check: waiting again at once is the right thing to do)
 WaitpidEintr(nohang) ==
-  /\ nwait' = nwait + 1 /\ nsys' = nsys + 1 /\ eintr' = TRUE
+  /\ nwait' = nwait /\ nsys' = nsys + 1 /\ eintr' = TRUE
   /\ viol' = viol \cup V(known = NoSt, "C09_quiet") \cup V(op # "none", "C09_quiet")
   /\ UNCHANGED <<cst, truth, exitT, now, det, known, op, opD, opN, t0, knownAtCall, slept, nkill, killOk, told>>
 
